@@ -24,7 +24,7 @@ from vlib import nn
 RULE = ("cells = (configuration, null population or null law); every distinct ordering / every sequence of the cell is "
         "executed; a cell is non-trivial if the population is non-constant and some ordering gives q < 1; distinct = "
         "hash of (configuration, sorted population | law, n)")
-REQUIRED = ["cells:perm", "cells:iid", "cells:audit", "audit_orderings_run", "orderings_run", "sequences_run", "cells_where_test_can_reject",
+REQUIRED = ["cells:perm", "cells:perm_largeN_few_minority", "cells:iid", "cells:audit", "audit_orderings_run", "orderings_run", "sequences_run", "cells_where_test_can_reject",
             "cells_boundary_mean"] + \
            [f"perm:{nn.label({'test': a, 'estim': b, 'bet': c})}" for a, b, c in nn.COMBOS
             if a not in ("kaplan_markov", "kaplan_wald")] + \
@@ -32,8 +32,9 @@ REQUIRED = ["cells:perm", "cells:iid", "cells:audit", "audit_orderings_run", "or
 ASSUMPTIONS = ["populations and laws use dyadic values so that totals are exact in float arithmetic in any order "
                "(DESIGN 3.2): a population is a null population in the arithmetic the code itself uses",
                "tolerance only on the final comparison: F(alpha) <= alpha(1+1e-9)+1e-12",
-               "N <= 8 (quick) / <= 11 for 2-3-valued populations (thorough) exhaustively; larger N only through the "
-               "Monte-Carlo cell of the thorough tier with a stated 1e-9 false-alarm bound per cell"]
+               "N <= 8 (quick) / <= 11 for 2-3-valued populations (thorough) exhaustively, plus N in {12,16,24,32} for "
+               "populations with at most 3 minority values (<= 4960 orderings); other large N only through the Monte-Carlo "
+               "cell of the thorough tier with a stated 1e-9 false-alarm bound per cell"]
 EXHAUSTIVE = "every cell enumerates all distinct orderings of its population (M1) or all k^n sequences of its law (M2)"
 SHARD_TIMEOUT = {"quick": 1200, "thorough": 14000}
 BUDGET = {"quick": {"perm_cells": 9600, "iid_cells": 3200, "nmax": 8, "iid_n": (5, 7), "mc_cells": 0, "audit_cells": 160, "audit_n": 6},
@@ -172,6 +173,38 @@ def run_shard(spec, rec):
                 break
         cfg["N"] = N
         run_case({"kind": "perm", "cfg": cfg, "pop": sorted(pop), "stratum": st}, rec)
+    # larger N where the orderings are still enumerable: a few minority values among N-k equal ones (N up to 32,
+    # k <= 3: at most C(32,3) = 4960 distinct orderings), null mean exactly at or just below t, t up to 15/16
+    for i in range(spec["perm_cells"] // 8):
+        combo = PERM_COMBOS[i % len(PERM_COMBOS)]
+        N = rng.choice((12, 16, 16, 24, 32))
+        k = rng.choice((1, 2, 3, 3))
+        u = rng.choice((1.0, 1.0, 1.0625, 1.5))
+        major, minor = rng.choice(((u, 0.0), (u, 0.0), (u, u / 2), (u / 2, 0.0), (u / 2, u)))
+        pop = [major] * (N - k) + [minor] * k
+        if rng.random() < 0.3:
+            pop[0] = rng.choice((0.0, u / 2, u))
+        tot = sum(pop)
+        # smallest multiple of 1/16 that makes the population null, sometimes one step above
+        t = math.ceil(tot / N * 16) / 16 + (0.0625 if rng.random() < 0.25 else 0.0)
+        if not (0 < t < u) or tot > N * t:
+            continue
+        cfg = nn.gen_cfg(rng, combo=combo, finite=True, allow_not_random=False, u=u, t=t)
+        cfg["N"] = N
+        cfg["u"] = u   # gen_cfg may pick another u for optimal_comparison: the population fixes it here
+        if "eta" in cfg["kw"] and not (t < cfg["kw"]["eta"] < u):
+            cfg["kw"]["eta"] = (t + u) / 2
+        if combo[1] == "shrink_trunc" and rng.random() < 0.6:
+            # the regime where the estimate really moves with the data: weight on u through the running sd (f > 0),
+            # slow shrinkage, tiny floor above the null mean, alternative close to u
+            cfg["kw"].update(f=rng.choice((0.25, 0.5, 1.0)), d=rng.choice((100.0, 128.0)), c=rng.choice((2.0 ** -10, 2.0 ** -20)),
+                             eta=u - (u - t) * rng.choice((0.25, 0.5)))
+        if combo[2] == "agrapa" and rng.random() < 0.5:
+            cfg["kw"].update(c_grapa_0=0.75, c_grapa_max=1 - nn.EPS, c_grapa_grow=rng.choice((1, 10)))
+        if n_distinct(pop) > 6000:
+            continue
+        rec.count("cells:perm_largeN_few_minority")
+        run_case({"kind": "perm", "cfg": cfg, "pop": sorted(pop), "stratum": "largeN_few_minority"}, rec)
     for i in range(spec["iid_cells"]):
         combo = IID_COMBOS[i % len(IID_COMBOS)]
         cfg = nn.gen_cfg(rng, combo=combo, finite=False, allow_not_random=False)
